@@ -228,6 +228,8 @@ def core_runner(prop):
 PROFILES = {p: {"run": core_runner(p)} for p in CORE}
 import sender
 PROFILES["C13"] = {"run": sender.run}
+import tree
+PROFILES["C07"] = {"run": tree.run}
 import listdata
 for _p in ("C02", "C04", "C11"):
     PROFILES[_p] = {"run": listdata.run}
